@@ -8,4 +8,4 @@ Extraction "model.ml" extraction_prelude
   fine_from_duration u128_max ai_zero
   bench_loop seen_of_outcome out_done out_state rounds_of
   c03_sb c04_sb c19_sb c03_e2e_sb elapsed_after continue_after first_pass
-  qget qconst all_kinds decimal_nanos c04_os_sb c19_e2e_sb c03_fig_sb stat_sample_count stat_iter_count bench_loop_cal c04_cal_sb c04_dur_sb thr_norm c03_threads_sb.
+  qget qconst all_kinds decimal_nanos c04_os_sb c19_e2e_sb c03_fig_sb stat_sample_count stat_iter_count bench_loop_cal c04_cal_sb c04_dur_sb thr_norm c03_threads_sb c03_tuned_sb.
